@@ -7,7 +7,12 @@ package kv
 // form on a miniredis server whose pre-hook records what reaches the wire, and compares.
 //
 // TestVerifC12Breaker: histories of spec/RedisBrk.tla on the real per-address breaker with the
-// coin forced to "reject whenever asked" and a frozen breaker clock.
+// coin forced to "reject whenever asked" and a frozen breaker clock.  An outage ("down") is made in one of
+// two ways, chosen per history from VERIF_SEED: the server keeps its listener and drops every connection at
+// the first command (pre-hook; the calls fail with EOF after go-redis' retries), or the listener is closed
+// and reopened afterwards (the calls fail at dial).  Reopening can fail for good when another process has
+// been given the port in between: the history is then replayed from its start against a fresh server (a
+// fresh address = a fresh breaker) in the first way; only if that is impossible too the run is exit 2.
 
 import (
 	"context"
@@ -15,6 +20,7 @@ import (
 	"fmt"
 	"strings"
 	"sync"
+	"sync/atomic"
 	"testing"
 	"time"
 
@@ -399,15 +405,28 @@ func TestVerifC12Breaker(t *testing.T) {
 	mathx.SetVerifCoin(func(float64) (bool, bool) { return true, true })
 	frozen := 500 * 24 * time.Hour
 	timex.SetVerifClock(func() time.Duration { return frozen })
-	s, err := miniredis.Run()
-	if err != nil {
-		t.Fatal(err)
+	// the server under test; dropping = it closes every connection at the first command it is sent
+	var dropping atomic.Bool
+	newServer := func() *miniredis.Miniredis {
+		srv, err := miniredis.Run()
+		if err != nil {
+			t.Fatal(err)
+		}
+		return srv
 	}
-	defer s.Close()
-	other, err := miniredis.Run()
-	if err != nil {
-		t.Fatal(err)
+	install := func(srv *miniredis.Miniredis) { // (Restart makes a new server object: the hook has to be installed again)
+		srv.Server().SetPreHook(func(p *server.Peer, _ string, _ ...string) bool {
+			if dropping.Load() {
+				p.Close()
+				return true
+			}
+			return false
+		})
 	}
+	s := newServer()
+	install(s)
+	defer func() { s.Close() }()
+	other := newServer()
 	defer other.Close()
 	cancelled, cancel := context.WithCancel(context.Background())
 	cancel()
@@ -465,10 +484,8 @@ func TestVerifC12Breaker(t *testing.T) {
 		known, err := c12CallCtx(ctx, r, m, a, uc)
 		return err, known
 	}
-	for _, c := range cases {
-		if c.Index%shards != shard {
-			continue
-		}
+	// runCase replays one history; drop = how its outages are made.  lost = the listener could not be reopened.
+	runCase := func(c kit.Case, drop bool) (v kit.Verdict, lost bool) {
 		s.FlushAll()
 		s.Set("present", "1")
 		if sha, err := redis.New(s.Addr()).ScriptLoad(nilScript); err == nil {
@@ -476,7 +493,7 @@ func TestVerifC12Breaker(t *testing.T) {
 		}
 		// a fresh wrapper object = a fresh breaker for the address
 		r, ro := redis.New(s.Addr()), redis.New(other.Addr())
-		v := kit.Verdict{Case: c.Index, OK: true}
+		v = kit.Verdict{Case: c.Index, OK: true}
 		var trail []string
 	steps:
 		for i, st := range c.Steps {
@@ -488,11 +505,16 @@ func TestVerifC12Breaker(t *testing.T) {
 				trail = append(trail, fmt.Sprintf("%s:%s*%d", kind, m, n))
 			}
 			if kind == "down" {
-				s.Close()
+				if drop {
+					dropping.Store(true)
+				} else {
+					s.Close()
+				}
 			}
 			rejected := 0
 			for j := 0; j < n; j++ {
 				var err error
+				began := time.Now()
 				switch {
 				case m != "":
 					var known bool
@@ -515,6 +537,12 @@ func TestVerifC12Breaker(t *testing.T) {
 					_, err = r.Get("present")
 				}
 				v.Steps++
+				if kind == "down" && !drop && err != breaker.ErrServiceUnavailable && time.Since(began) > 2*time.Second {
+					// a dial to a closed listener is refused at once; a call that hangs has reached a listener of
+					// another process that has been given the port: the address is lost
+					rep.Count("outage.listener-lost", 1)
+					return v, true
+				}
 				if err == breaker.ErrServiceUnavailable {
 					rejected++
 				} else {
@@ -536,7 +564,18 @@ func TestVerifC12Breaker(t *testing.T) {
 							name = map[string]string{"ok": "Get", "nil": "HGet", "cancel": "Get", "down": "Get"}[kind]
 						}
 						switch {
-						case kind == "ok" || kind == "down":
+						case kind == "down" && !drop:
+							// the listener is closed and yet the call was answered: another process has been given
+							// the port and answers there - the address is lost, the history has to start again
+							rep.Count("outage.listener-lost", 1)
+							return v, true
+						case kind == "down":
+							// the server drops every connection, go-redis reports a failure for this call: a wrapper
+							// method that reports success has swallowed it
+							v.OK, v.Step, v.Key = false, i, "C12:breaker:outage-call-succeeded:"+name
+							v.Msg = fmt.Sprintf("history %s: call %d of the outage burst through %s returned %v although the server dropped the connection", strings.Join(trail, " "), j+1, name, err)
+							break steps
+						case kind == "ok":
 							v = kit.Verdict{Case: c.Index, Infra: true, Msg: fmt.Sprintf("step %d %s burst through %s: unexpected result %v", i, kind, name, err)}
 							break steps
 						case name == "Pipelined":
@@ -566,21 +605,28 @@ func TestVerifC12Breaker(t *testing.T) {
 			rep.Count("burst."+kind, 1)
 			rep.Count("rejected."+expect, rejected)
 			if kind == "down" {
-				var err error
-				for try := 0; try < 100; try++ { // another process may hold the port for a moment
-					if err = s.Restart(); err == nil {
-						break
+				if drop {
+					dropping.Store(false)
+					rep.Count("outage.dropped-connections", 1)
+				} else {
+					var err error
+					for try := 0; try < 30; try++ { // another process may hold the port for a moment
+						if err = s.Restart(); err == nil {
+							break
+						}
+						time.Sleep(100 * time.Millisecond)
 					}
-					time.Sleep(100 * time.Millisecond)
-				}
-				if err != nil {
-					v = kit.Verdict{Case: c.Index, Infra: true, Msg: "restart: " + err.Error()}
-					break
+					if err != nil { // ... or for good
+						rep.Count("outage.listener-lost", 1)
+						return v, true
+					}
+					install(s)
+					rep.Count("outage.closed-listener", 1)
 				}
 				// go-redis' pool answers with its cached dial error until its background re-dial
 				// (1 s period) succeeds: wait, through a wrapper object with its own fresh breaker
-				if !kit.WaitFor(10*time.Second, func() bool { return redis.New(s.Addr()).Ping() }) {
-					v = kit.Verdict{Case: c.Index, Infra: true, Msg: "server not reachable again 10 s after restart"}
+				if !kit.WaitFor(30*time.Second, func() bool { return redis.New(s.Addr()).Ping() }) {
+					v = kit.Verdict{Case: c.Index, Infra: true, Msg: "server not reachable again 30 s after the outage"}
 					break
 				}
 			}
@@ -589,6 +635,21 @@ func TestVerifC12Breaker(t *testing.T) {
 				v.Msg = fmt.Sprintf("history %s: a command to another address was rejected", strings.Join(trail, " "))
 				break
 			}
+		}
+		dropping.Store(false)
+		return v, false
+	}
+	for _, c := range cases {
+		if c.Index%shards != shard {
+			continue
+		}
+		v, lost := runCase(c, (int64(c.Index)+kit.Seed())%2 == 0)
+		if lost {
+			// the port went to another process while the listener was closed: fresh server, fresh address
+			// (= fresh breaker), the history again from its start with outages that keep the listener
+			s = newServer()
+			install(s)
+			v, _ = runCase(c, true)
 		}
 		rep.Put(v)
 	}
